@@ -221,6 +221,20 @@ def window_bits(points, f, halfwidth):
     return np.unique(np.concatenate(out))
 
 
+def approach_bits(points, f, n, rng):
+    """indices i(v) +- floor(2^u), u uniform in [0, p+3]: every scale of distance from each threshold (1 ULP ... far) is
+    hit equally often (a cancellation error typically peaks at a distance ~2^(p/2) ULP, far outside a +-64-ULP window
+    and far too close for random samples)"""
+    out = []
+    for v in points:
+        i = flt.index(flt.scalar_bits(f.ftype(v)), f)
+        d = np.floor(np.exp2(rng.uniform(0, f.p + 3, size=n))).astype(np.int64) * rng.choice([-1, 1], size=n)
+        j = np.clip(i + d, 0, f.largest_bits).astype(np.uint64)
+        out.append(j)
+        out.append(j | np.uint64(f.sign_mask))
+    return np.unique(np.concatenate(out)) if out else np.zeros(0, dtype=np.uint64)
+
+
 # ---------------------------------------------------------------- hypot
 
 
@@ -330,7 +344,7 @@ def run(ctx):
         "float32 unary functions (absolute, acos, acosh, asin, asinh, square): thorough = every non-NaN float32 bit pattern (2^32-2^24 per "
         "function); quick = every 4099th bit pattern plus full +-65536-ULP windows around every threshold read out of the expanded graph "
         "(input-independent sub-expressions, their square roots/squares/halves, 0, 1, smallest normal, largest) and +-inf; float64: bit-uniform "
-        "samples plus +-2048-ULP windows; hypot: special lattice^2, threshold pool^2, random pairs, |x|=|y|, y=x(1+-k eps), min/max ~ sqrt(eps). "
+        "samples plus +-2048-ULP windows plus geometric approach sequences to every threshold (index +- 2^u, u uniform in [0, p+3]); hypot: special lattice^2, threshold pool^2, random pairs, |x|=|y|, y=x(1+-k eps), min/max ~ sqrt(eps). "
         "Oracle: float64 numpy filter, every case at lattice distance >= 3 re-decided exactly by mpmath (Ziv); float64 always mpmath. "
         "Verdicts: distance <= 4 (float32) / 5 (float64); inputs beyond the 3-ULP target < N/1e5; NaN exactly on the undefined set; exact "
         "limits at +-inf, +-0, 1. Non-trivial = finite non-zero input with finite non-zero result; distinct by (function, format, input)."
@@ -358,6 +372,8 @@ def run(ctx):
         for s in range(4 if q else 16):
             tasks.append((fname, 64, "random", n64, None, (ctx.seed, 2, 64, s, len(fname))))
         wb = window_bits(switch_points(fname, flt.F64), flt.F64, 64 if q else 2048)
+        ab = approach_bits(list(switch_points(fname, flt.F64)) + [1.0], flt.F64, 400 if q else 40000, ctx.rng(2, 64, len(fname)))
+        wb = np.unique(np.concatenate([wb, ab]))
         for ch in np.array_split(wb, 4 if q else 16):
             tasks.append((fname, 64, "bits", ch, None, None))
     parts = []
